@@ -9,7 +9,7 @@ add("C04", T + ": metamorphic relations (linearity in the seed, k-fold accumulat
     "Metamorphic relations on single modules: linear combination of seeds, repeated sensitivity() calls, bit-identical states around sensitivity()/reset()/response().", "DESIGN.md §3 C04")
 add("C05", T + ": generated solver x matrix-class x trans x rhs cases vs the defining equation (normwise backward error)",
     "Each solver on generated matrices of its documented class (bounded condition number, several scales and storages) must satisfy the requested (transposed/adjoint) system to 1e-10 backward error (CG: 20*tol), keep shape/dtype.", "DESIGN.md §3 C05")
-add("C06", T + ": generated update/solve histories on LDAWrapper(CountingSolver) vs residual + span reference model; exhaustive sparsity patterns for small n",
+add("C06", T + ": generated update/solve histories on LDAWrapper(CountingSolver) vs residual + span reference model; exhaustive sparsity patterns for small n; atheris engine in the thorough tier",
     "Histories of update/solve with N/T/H, real/complex, block and dependent right-hand sides; residual oracle, fresh-wrapper differential for raises, one-directional inner-solve-count model; all off-diagonal patterns enumerated for n=3 (quick) / n=4 (thorough).", "DESIGN.md §3 C06")
 add("C07", T + ": generated matrices/partitions/rhs for LinSolve, Inverse, SystemOfEquations, StaticCondensation vs defining equations and dense Schur complement",
     "Three-stage programs per module object (response, repeat, new inputs) judged by backward error of the defining equations and numpy's dense Schur complement; input states must stay bit-identical.", "DESIGN.md §3 C07")
@@ -21,7 +21,7 @@ add("C11", T + ": generated dense/sparse pencils with prescribed gapped spectra 
     "Eigenpairs are judged by residual, q^T B q = 1, sorter identity, sign convention, completeness (dense) and closest-to-sigma set (sparse FE pencils).", "DESIGN.md §3 C11")
 add("C12", T + ": generated affine displacement fields vs own Voigt strains/D matrices and the assembled stiffness energy; known finding factored out",
     "Strain/Stress/ElementAverage/NodalOperation/ThermoMechanical vs exact affine-field references (1e-11) and energy identity with AssembleStiffness; the test-pinned 2x shear is a recorded known finding whose exact shape is matched, everything else is still reported.", "DESIGN.md §3 C12")
-add("C13", T + ": exhaustive grid enumeration + Hypothesis-generated sizes/points vs independent numbering and shape-function reference",
+add("C13", T + ": exhaustive grid enumeration + Hypothesis-generated sizes/points vs independent numbering and shape-function reference; atheris engine in the thorough tier",
     "All grid sizes up to a bound are enumerated and every numbering/connectivity table compared with an independently derived one; shape-function identities are checked at generated points. Exhaustive for the stated grid sub-space, sampled for element sizes and points.", "DESIGN.md §3 C13")
 add("C14", T + ": generated domains/directions/parameters/fields vs an element-by-element reference of Langelaar's scheme + metamorphic mirror/axis-swap relations",
     "OverhangFilter output vs an independent layer-by-layer reference (1e-12), bounds, string/vector direction equivalence, mirror and axis-swap relations.", "DESIGN.md §3 C14")
@@ -29,7 +29,7 @@ add("C10", T + ": generated convex problems as pyMOTO networks; recording wrappe
     "Every iteration of minimize_mma on generated convex problems is observed through a recording wrapper of subsolv and the callback: bounds, move limits, asymptotes, approximation value/gradient reproduction, subproblem KKT residual recomputed by the check, write-back to the right signals, approach to the oracle optimum.", "DESIGN.md §3 C10")
 add("C15", T + ": generated straight-line programs over DyadCarrier vs a dense numpy reference model (model-based); atheris coverage-guided engine in the thorough tier",
     "Programs of constructor/operator/slicing/contract operations are executed on DyadCarrier and on dense matrices; after every step values, shapes, dtype class and operand immutability are compared (1e-12).", "DESIGN.md §3 C15")
-add("C16", T + ": exhaustive small vectors over a value grid + generated vectors/options/response sequences vs analytic bounds, exact-fraction active-set validity predicate and the damping recurrence",
+add("C16", T + ": exhaustive small vectors over a value grid + generated vectors/options/response sequences vs analytic bounds, exact-fraction active-set validity predicate and the damping recurrence; atheris engine in the thorough tier",
     "Aggregation bounds, undamped exactness, damping recurrence and the active-set rule (as a validity predicate admitting ties) on all vectors over a 4-level grid up to n=6 (quick) / 7 (thorough) plus generated cases.", "DESIGN.md §3 C16")
 add("C17", T + ": generated OC runs observed by a recording module vs own OC map with exact multiplier (bisection) and water-filling optimum",
     "Every design of minimize_oc runs on generated separable/compliance problems is checked for bounds, move limit, volume (when reachable, to bisection tolerance), write-back and convergence to the analytic optimum.", "DESIGN.md §3 C17")
@@ -37,5 +37,5 @@ add("C18", T + ": generated operation histories on Signal/SignalSlice vs a plain
     "Histories of state/sensitivity assignments, add_sensitivity (incl. shared objects), resets and slicing are replayed against a numpy model after every step, with aliasing checks via shares_memory.", "DESIGN.md §3 C18")
 add("C19", T + ": generated modules/networks with known exact Jacobians (correct and deliberately wrong variants) vs the tuples finite_difference reports",
     "finite_difference is run on generated modules with exact Jacobians; every reported (x0, dx, an, fd) tuple, their count/order, detection of wrong variants, state restoration and reset are checked.", "DESIGN.md §3 C19")
-add("C20", T + ": round trip — generated domains/arrays/options written by WriteToVTI/ScalarToFile, decoded with xml.etree/base64/struct and compared",
+add("C20", T + ": round trip — generated domains/arrays/options written by WriteToVTI/ScalarToFile, decoded with xml.etree/base64/struct and compared; atheris engine in the thorough tier",
     "Files written for generated inputs are parsed back independently (XML structure, extents, spacing, base64 float32 payloads, names, sections, file naming; log header/rows) and compared with the inputs.", "DESIGN.md §3 C20")
